@@ -428,6 +428,48 @@ Definition req_error (eid : nat) (k : reqkind) (sc : script) : err :=
   | KConnect => connect_impl eid sc
   end.
 
+(* RetryClient.queueRetry (retryclient.go): the retransmission runs under c.requestContext(ctx), so a
+   ResponseTimeout expiring on it is reported by that context's Err() = RequestTimeoutError *)
+Definition retx_ctx_err (id : nat) : err := request_ctx_err id (ESent SDeadlineExceeded).
+
+(* n+1 consecutive retransmissions of handle h, each on a fresh connected client whose broker never
+   answers: RetryClient.Retry calls the queued closure, the error goes to OnError and its handle is
+   queued again by queueRetry *)
+Fixpoint retx_rounds (eid : nat) (ceid : nat) (h : handle) (n : nat) : err :=
+  match snd (run_handle eid conn_client 1 h (script_of FCtx1 (retx_ctx_err ceid))) with
+  | GoPanic => ENil
+  | Ret e =>
+    match n with
+    | O => e
+    | S n' => match retry_handle e with
+              | Some h' => retx_rounds (eid + 2) ceid h' n'
+              | None => e
+              end
+    end
+  end.
+
+Definition canon_request (k : reqkind) : option request :=
+  match k with
+  | KPub1 => Some (RqPublish (canon_msg 1))
+  | KPub2 => Some (RqPublish (canon_msg 2))
+  | KSub => Some (RqSubscribe [([116], 1)])
+  | KUnsub => Some (RqUnsubscribe [[116]])
+  | _ => None
+  end.
+
+Definition retx_error (id : nat) (k : reqkind) (phase2 : bool) (n : N) : err :=
+  match canon_request k with
+  | None => ENil
+  | Some r =>
+    match snd (run_request id conn_client 1 r (script_of (if phase2 then FClosed2 else FClosed1) ENil)) with
+    | GoPanic => ENil
+    | Ret e => match retry_handle e with
+               | Some h => retx_rounds (id + 2) (id + 6) h (N.to_nat n - 1)
+               | None => e
+               end
+    end
+  end.
+
 Inductive callkind :=
 | CkReq (k : reqkind) (f : fstep)        (* BaseClient request; cause = Write error (FWrite) or ctx.Err() (FCtx) *)
 | CkConnectOpt                           (* BaseClient.Connect, a ConnectOption returns cause (connect.go:113) *)
@@ -442,8 +484,14 @@ Inductive callkind :=
 | CkWillBadQoS
 | CkServe (n : N)                        (* Err() after the reader ended: 0 EOF, 1 unknown type, 2 five length bytes,
                                             3 U+0000 in topic, 4 PUBACK with flags *)
-| CkKeepAlive (n : N).                   (* KeepAlive (keepalive.go:34-61) ends: 0 the per-ping timeout expires,
+| CkKeepAlive (n : N)                    (* KeepAlive (keepalive.go:34-61) ends: 0 the per-ping timeout expires,
                                             1 the parent context is done (cause), 2 the ping's Write fails (cause) *)
+| CkRetryRetx (k : reqkind) (phase2 : bool) (n : N).
+      (* RetryClient with ResponseTimeout: request k is interrupted once (the peer closes before the
+         acknowledgement of the first packet, or - phase2, QoS 2 - of the PUBREL), then SetClient +
+         Connect + Retry on a new connection whose broker withholds the acknowledgement, n times in a
+         row (n = 1: the retransmission, n = 2: the retry of the retry): the error OnError receives
+         for the n-th retransmission *)
 
 (* identities allocated by a call start at [id]; at most 4 are used *)
 Definition call_error (id : nat) (ck : callkind) (cause : err) : err :=
@@ -481,6 +529,7 @@ Definition call_error (id : nat) (ck : callkind) (cause : err) : err :=
       if n =? 0 then wrap_error id (ESent SPingTimeout)                       (* keepalive.go:53 *)
       else if n =? 1 then wrap_error id cause                                 (* keepalive.go:48 *)
       else ping_impl id conn_client (script_of FWrite1 cause)                 (* keepalive.go:56: return err *)
+  | CkRetryRetx k phase2 n => retx_error id k phase2 n
   end.
 
 (* ---------- descriptions of how a value was built (what the harness does with the real
@@ -848,6 +897,9 @@ Definition call_ok (ck : callkind) : bool :=
   | CkNotConnected k => match k with KConnect => false | _ => true end
   | CkServe n => n <=? 4
   | CkKeepAlive n => n <=? 2
+  | CkRetryRetx k phase2 n =>
+      ((n =? 1) || (n =? 2))
+      && match k with KPub2 => true | KPub1 | KSub | KUnsub => negb phase2 | _ => false end
   | _ => true
   end.
 
@@ -874,6 +926,7 @@ Definition call_sentinel (ck : callkind) : sentinel :=
   | CkServe n => if n =? 0 then SEOF else if n =? 1 then SInvalidPacket else if n =? 2 then SInvalidPacketLength
                  else if n =? 3 then SInvalidRune else SInvalidPacket
   | CkKeepAlive _ => SPingTimeout
+  | CkRetryRetx _ _ _ => SDeadlineExceeded
   | CkConnectOpt | CkRetryConnectOpt => SClosedTransport (* unused: these use the cause *)
   end.
 
@@ -910,6 +963,15 @@ Fixpoint mentions (s : sentinel) (d : desc) : bool :=
 (* a request kind that must keep its retry handle when interrupted *)
 Definition retryable_kind (k : reqkind) : bool :=
   match k with KPub1 | KPub2 | KSub | KUnsub => true | _ => false end.
+
+(* a handle as publishImpl / subscribeImpl / unsubscribeImpl produce them *)
+Definition handle_valid (h : handle) : bool :=
+  match h with
+  | HRetryPublish m => ((m_qos m =? 1) || (m_qos m =? 2)) && negb (m_id m =? 0)
+  | HRetryPublish2 _ => true
+  | HRetrySubscribe subs => forallb (fun s => snd s <=? 2) subs
+  | HRetryUnsubscribe _ => true
+  end.
 
 (* the calls that wait on the caller's context *)
 Definition ctx_call (ck : callkind) : bool :=
